@@ -14,6 +14,8 @@ import (
 	"fmt"
 	"net"
 	"net/http"
+	"os"
+	"runtime"
 	"strconv"
 	"strings"
 	"sync"
@@ -115,6 +117,8 @@ func relayMainE2E(buf int64, pruneEvery time.Duration) string {
 	m := &rmInst{accessPort: l1.Addr().(*net.TCPAddr).Port, relayPort: l2.Addr().(*net.TCPAddr).Port}
 	l1.Close()
 	l2.Close()
+	time.Sleep(50 * time.Millisecond)
+	baseG := runtime.NumGoroutine() // the relay runs in this process: what it leaves behind after shutdown can be counted
 	closed := make(chan struct{})
 	var wg sync.WaitGroup
 	wg.Add(1)
@@ -229,6 +233,22 @@ func relayMainE2E(buf int64, pruneEvery time.Duration) string {
 	}
 	rd.Close()
 	wr.Close()
-	out = append(out, "shutdown="+sd)
+	// everything the relay started for the connections that were open at shutdown is gone again (a few seconds of grace)
+	left := 0
+	if tr, ok := http.DefaultTransport.(*http.Transport); ok {
+		tr.CloseIdleConnections() // our own keep-alive connections to the access API
+	}
+	for i := 0; i < 40; i++ {
+		left = runtime.NumGoroutine() - baseG
+		if left <= 4 { // the hub loop, the code-store sweeper and the API's signal handler live as long as the process
+			break
+		}
+		time.Sleep(100 * time.Millisecond)
+	}
+	if os.Getenv("VERIF_DEBUG_GOROUTINES") != "" {
+		buf := make([]byte, 1<<20)
+		os.Stderr.Write(buf[:runtime.Stack(buf, true)])
+	}
+	out = append(out, fmt.Sprintf("shutdown=%s left=%d", sd, left))
 	return strings.Join(out, " | ")
 }
